@@ -27,6 +27,7 @@ type c18Case struct {
 	Callback bool        `json:"callback"` // LMTPData with callback, else Data()
 	NilCB    bool        `json:"nil_cb"`   // LMTPData(nil)
 	Reset    bool        `json:"reset"`    // Client.Reset between transactions
+	Abandon  int         `json:"abandon"`  // index+1 of a transaction that is abandoned after its RCPTs (DATA refused by the peer with 451); scripted peer
 }
 
 func init() {
@@ -96,6 +97,24 @@ func c18Run(ctx *core.Ctx) {
 				}
 			}
 		}
+		// a transaction that never reaches Close (DATA refused), then a normal one
+		for _, m := range modes {
+			for _, reset := range []bool{false, true} {
+				for _, t := range [][][]c18Rcpt{
+					{{{Verdict: "ok"}}, {{Verdict: "ok"}}},
+					{{{Verdict: "ok"}, {Verdict: "fail"}}, {{Verdict: "fail"}, {Verdict: "ok"}, {Verdict: "ok"}}},
+					{{{Verdict: "ok"}}, {{Verdict: "ok"}}, {{Verdict: "fail"}}},
+				} {
+					c := m
+					c.Txns, c.Reset, c.Abandon = t, reset, 1
+					emit(c)
+					if len(t) == 3 {
+						c.Abandon = 2
+						emit(c)
+					}
+				}
+			}
+		}
 		// recipients accepted with 251 (will forward)
 		emitAll([][]c18Rcpt{{{Verdict: "ok", Code: 251}, {Verdict: "fail"}, {Verdict: "ok"}}})
 		emitAll([][]c18Rcpt{{{Verdict: "fail"}, {Verdict: "ok", Code: 251}}, {{Verdict: "ok"}, {Verdict: "fail", Code: 251}}})
@@ -111,7 +130,7 @@ func c18Exec(ctx *core.Ctx, c c18Case) {
 			}
 		}
 	}
-	ctx.Eval(fmt.Sprintf("%v|%v|%v|%v", c.Txns, c.Callback, c.NilCB, c.Reset), nontrivial)
+	ctx.Eval(fmt.Sprintf("%v|%v|%v|%v|%d", c.Txns, c.Callback, c.NilCB, c.Reset, c.Abandon), nontrivial)
 	rig := newRig(modeLMTPRcpt, nil)
 	// addresses encode transaction, index and verdict: t<t>r<i>-<ok|fail|rej>@x.test
 	rig.BE.H.Rcpt = func(sess int, to string, o *smtp.RcptOptions) error {
@@ -152,7 +171,7 @@ func c18Exec(ctx *core.Ctx, c c18Case) {
 		}
 		return nil
 	}
-	useFake := false
+	useFake := c.Abandon > 0
 	for _, t := range c.Txns {
 		for _, r := range t {
 			if r.Code == 251 {
@@ -199,7 +218,11 @@ func c18Exec(ctx *core.Ctx, c c18Case) {
 				return
 			}
 		}
-		if err := cl.Mail(fmt.Sprintf("s%d@x.test", ti), nil); err != nil {
+		sender := fmt.Sprintf("s%d@x.test", ti)
+		if c.Abandon == ti+1 {
+			sender = fmt.Sprintf("nodata%d@x.test", ti)
+		}
+		if err := cl.Mail(sender, nil); err != nil {
 			done()
 			if errors.Is(err, memconn.ErrStalled) {
 				fail("C18:desync", fmt.Sprintf("transaction %d: Mail stalled: the client is out of step with the server", ti))
@@ -251,6 +274,15 @@ func c18Exec(ctx *core.Ctx, c c18Case) {
 			Close() error
 		}
 		var err error
+		if c.Abandon == ti+1 {
+			// the peer refuses DATA for this transaction (its sender is marked): no writer, no Close
+			if _, derr := cl.Data(); derr == nil {
+				done()
+				fail("C18:abandon-setup", "the scripted peer was expected to refuse DATA")
+				return
+			}
+			continue
+		}
 		switch {
 		case c.Callback && c.NilCB:
 			w, err = cl.LMTPData(nil)
@@ -344,6 +376,7 @@ func c18FakeLMTP(f *wire.Fake) {
 	f.Write("220 fake LMTP\r\n")
 	var accepted []string
 	inData := false
+	refuseData := false
 	for {
 		l, ok := f.ReadLine()
 		if !ok {
@@ -369,6 +402,7 @@ func c18FakeLMTP(f *wire.Fake) {
 			f.Write("250-fake\r\n250 PIPELINING\r\n")
 		case strings.HasPrefix(up, "MAIL"):
 			accepted = nil
+			refuseData = strings.Contains(l, "<nodata")
 			f.Write("250 2.0.0 ok\r\n")
 		case strings.HasPrefix(up, "RCPT"):
 			a := l[strings.Index(l, "<")+1 : strings.Index(l, ">")]
@@ -382,6 +416,8 @@ func c18FakeLMTP(f *wire.Fake) {
 				accepted = append(accepted, a)
 				f.Write("250 2.1.5 ok\r\n")
 			}
+		case up == "DATA" && refuseData:
+			f.Write("451 4.3.0 v#no-data-now\r\n")
 		case up == "DATA":
 			if len(accepted) == 0 {
 				f.Write("503 5.5.1 no recipients\r\n")
